@@ -158,7 +158,8 @@ func (r *Router) match(method, path string) (rt *Route, ps Params) {
 	if r.enableCaching {
 		route, ok := r.cachedRoutes.Get(method + path)
 		if ok {
-			return route, route.params
+			// Notice: return a copy, the cached params must not be changed by handlers.
+			return route, route.params.clone()
 		}
 	}
 
